@@ -333,7 +333,8 @@ def memo_search(rel, qual, budget=700):
     cands = cands[:budget]
     show = lambda t: [("hex:" + bytes(x).hex()) if isinstance(x, (bytes, bytearray)) else x for x in t]
     base = [forked(lambda y=y: outcome(f, *y)).get("ok") for y in cands]
-    firsts_x = cands[:2] + cands[len(cands) // 2: len(cands) // 2 + 1]
+    step = 1 if len(cands) <= 320 else len(cands) // 160
+    firsts_x = cands[:2] + cands[2::step]                  # every candidate is also tried as the earlier call (sampled above 320)
     for x in firsts_x:
         def run(x=x):
             outcome(f, *x)
@@ -824,7 +825,11 @@ def _find(req):
             if r:
                 r["found_by"] = "memo"
                 return r
-    if "/memo#" in oid:
+    if ("/ensures#" in oid or oid.endswith("/raises") or "/out-of-subset" in oid) and "::" in fn_target:
+        # an obligation of one function under symbolic contract: that function first (as a memo function, then under schedules)
+        rel, writer = fn_target.split("::")[0], fn_target.split("::")[1]
+        plan = ["memo", "schedule", "history"]
+    elif "/memo#" in oid:
         plan = ["memo", "history", "serial"]
     elif "/schedule#" in oid:
         plan = ["schedule"]
